@@ -212,6 +212,7 @@ func (c *Check) Sub(name string, m map[string]any) {
 // Finish writes evidence/<id>.json and exits: 0 held (or only known findings), 1 violation, 2 engine error.
 // Counters used: states, transitions, traces (traces_validated_against_impl), evaluations, distinct.
 func (c *Check) Finish(rule string) {
+	c.mergeParts()
 	c.mu.Lock()
 	defer c.mu.Unlock()
 	cov := map[string]any{
@@ -261,7 +262,7 @@ func (c *Check) Finish(rule string) {
 		"violations":  c.nViol,
 	}
 	b, _ := json.MarshalIndent(ev, "", " ")
-	p := filepath.Join(c.verifDir, "evidence", c.ID+os.Getenv("VERIF_EVIDENCE_SUFFIX")+".json")
+	p := filepath.Join(c.verifDir, "evidence", c.ID+os.Getenv("VERIF_EVIDENCE_SUFFIX")+partSuffix()+".json")
 	_ = os.MkdirAll(filepath.Dir(p), 0o755)
 	if err := os.WriteFile(p, b, 0o644); err != nil {
 		fmt.Fprintln(os.Stderr, "vlib: cannot write evidence:", err)
@@ -276,6 +277,76 @@ func (c *Check) Finish(rule string) {
 		os.Exit(2)
 	}
 	os.Exit(0)
+}
+
+// A check can consist of several binaries (different instrumentation profiles). A part (VERIF_EVIDENCE_PART=<p>)
+// writes evidence/<ID>.part-<p>.json; the main binary, run last, folds the parts into its own evidence and removes them.
+func partSuffix() string {
+	if p := os.Getenv("VERIF_EVIDENCE_PART"); p != "" {
+		return ".part-" + p
+	}
+	return ""
+}
+
+func (c *Check) mergeParts() {
+	if partSuffix() != "" {
+		return
+	}
+	files, _ := filepath.Glob(filepath.Join(c.verifDir, "evidence", c.ID+os.Getenv("VERIF_EVIDENCE_SUFFIX")+".part-*.json"))
+	for _, f := range files {
+		b, err := os.ReadFile(f)
+		if err != nil {
+			continue
+		}
+		var ev struct {
+			Tier        string   `json:"tier"`
+			Violations  int      `json:"violations"`
+			Assumptions []string `json:"assumptions"`
+			Coverage    struct {
+				Subs       []map[string]any `json:"sub_checks"`
+				Exhaustive bool             `json:"exhaustive"`
+				States     int64            `json:"states"`
+				Trans      int64            `json:"transitions"`
+				Traces     int64            `json:"traces_validated_against_impl"`
+				Evals      int64            `json:"evaluations"`
+				Distinct   int64            `json:"distinct_nontrivial"`
+				Known      int              `json:"known_findings_seen"`
+				EngErr     []string         `json:"engine_errors"`
+				Counters   map[string]int64 `json:"counters"`
+				Samples    []any            `json:"samples"`
+			} `json:"coverage"`
+		}
+		if json.Unmarshal(b, &ev) != nil || ev.Tier != c.Tier {
+			_ = os.Remove(f)
+			continue
+		}
+		c.mu.Lock()
+		c.subs = append(c.subs, ev.Coverage.Subs...)
+		c.assume = append(c.assume, ev.Assumptions...)
+		c.nViol += ev.Violations
+		c.nKnown += ev.Coverage.Known
+		c.engErr = append(c.engErr, ev.Coverage.EngErr...)
+		c.counters["states"] += ev.Coverage.States
+		c.counters["transitions"] += ev.Coverage.Trans
+		c.counters["traces"] += ev.Coverage.Traces
+		c.counters["evaluations"] += ev.Coverage.Evals
+		c.counters["distinct"] += ev.Coverage.Distinct
+		for k, v := range ev.Coverage.Counters {
+			c.counters[k] += v
+		}
+		if len(c.samples) < 6 {
+			for _, s := range ev.Coverage.Samples {
+				if _, isStr := s.(string); !isStr {
+					c.samples = append(c.samples, s)
+				}
+			}
+		}
+		if !ev.Coverage.Exhaustive {
+			c.exh = false
+		}
+		c.mu.Unlock()
+		_ = os.Remove(f)
+	}
 }
 
 type replayDoc struct {
